@@ -106,7 +106,12 @@ def h_fpsearch(c):
                 kw[k] = dec(call[k])
         if call.get("return_alpha"):
             kw["return_alpha"] = True
-        res = FPSearch().generate(call["d"], **kw)
+        dd = call["d"]
+        if call.get("d_type") == "float":
+            dd = float(dd)                      # the command line hands d over as a float
+        elif call.get("d_type"):
+            dd = getattr(numpy, call["d_type"])(dd)      # a length taken from a narrow integer array (int8 / uint8 / int16 ...)
+        res = FPSearch().generate(dd, **kw)
         held.append(res)                       # the caller keeps every returned vector
         out.append(enc(numpy.asarray(res, dtype=float)))
     # the vectors as they are after all later calls (a caller generating a table first and using it afterwards)
